@@ -129,7 +129,7 @@ Qed.
 Lemma score_close_refl s : score_close 0 s s = true.
 Proof.
   destruct s as [q|]; [|reflexivity]. cbn [score_close]. apply Qle_bool_iff.
-  setoid_replace (q - q) with 0 by ring. cbn. lra.
+  setoid_replace (q - q) with 0 by ring. rewrite Qmult_0_l. cbn. lra.
 Qed.
 
 Lemma same_b_refl (o : obs) : same_b o o = true.
@@ -171,7 +171,7 @@ Definition opt_eq (a b : option Q) : Prop :=
 Lemma score_close_exact a b : score_close 0 a b = true -> opt_eq a b.
 Proof.
   destruct a as [x|], b as [y|]; cbn [score_close opt_eq]; try discriminate; [|auto].
-  intro H. apply Qle_bool_iff in H.
+  intro H. apply Qle_bool_iff in H. rewrite Qmult_0_l in H.
   assert (Qabs (x - y) <= 0) as H0 by lra.
   apply Qabs_Qle_condition in H0. lra.
 Qed.
